@@ -3,6 +3,7 @@
 from __future__ import annotations
 
 import math
+import asyncio
 import random
 
 import smachine as S
@@ -119,6 +120,10 @@ def propose(w: S.SWorld, rng: random.Random, prof: Profile):
             cands.append((W["hold"], (S.HOLD, t, rng.randrange(1, 9), 0)))
         else:
             cands.append((W["drop"], (S.DROP, t, 0, 0)))
+            if isinstance(p.held, asyncio.CancelledError):
+                # cleanup code that fails while the task is unwinding from a cancellation: the new error REPLACES the
+                # cancellation (a body that raises its own error after a child failed and the group cancelled it)
+                cands.append((W["hold"] * 0.6, (S.HOLD, t, rng.randrange(1, 9), 0)))
         cands.append((W["wrap"], (S.WRAP, t, rng.randrange(1, 9), 0)))
         if p.spawned:
             cands.append((W["finish"] if depth == 0 else W["finish"] * 0.05, (S.FINISH, t, rng.randrange(0, 9), 0)))
